@@ -74,7 +74,8 @@ def batches(ctx):
 RULE = ("per class every history of depth 3 (quick) / 4 (thorough; 3 for containers) over a small alphabet: names x lengths, "
         "three complexes in every rotation (rotationally symmetric, identical strands), named/unnamed/conflicting names, "
         "name look-ups, ~, drops, macrostates and reactions over a fixed population in every member order incl. an equal "
-        "complex of a subclass; plus random histories of length 40/100 over all 25 classes of the zoo; compared after every "
+        "complex of a subclass, the members / reactants / products handed over as tuple, list and deque in turn (by position "
+        "in the history, so every member order meets every container); plus random histories of length 40/100 over all 25 classes of the zoo; compared after every "
         "step: outcome kind, existing, slot identities, both registries, attributes, counters, weakref liveness; distinct = "
         "distinct final observable states on which model and implementation agree")
 
